@@ -6,6 +6,7 @@ a fixpoint over phi nodes with widening/narrowing, linear facts from dominating 
 and discharges *obligations*: arithmetic overflow, shift amounts, division, indexing, explicit
 panics, allocation sizes.  An obligation that cannot be discharged locally but is linear in the
 function's parameters is lifted to the call sites and proved there."""
+import re
 import math
 from fractions import Fraction
 
@@ -673,7 +674,14 @@ class FnCtx:
                 old = self.phi.get(phi, BOT)
                 new = self.phi_join(phi)
                 if rounds > 4 + 4 * self.eng.precision:
-                    new = widen(old, new, int_range(self.ft.tyof(phi) or ""))
+                    pty = self.ft.tyof(phi) or ""
+                    rng = int_range(pty)
+                    if rng is None:
+                        # arrays / vectors / slices of integers widen to the element type's range, not beyond it
+                        m_ = re.match(r"^&?(?:mut )?\[([a-z0-9]+)(?:; \d+)?\]$", pty) or re.match(r"^&?(?:mut )?(?:std|alloc)::vec::Vec<([a-z0-9]+)>$", pty)
+                        if m_:
+                            rng = int_range(m_.group(1))
+                    new = widen(old, new, rng)
                 else:
                     new = join(old, new)
                 if new != old:
